@@ -108,7 +108,12 @@ Between == AtRest /\ txn < NTx        \* one transaction is over, the next put r
 Stuck == Calm /\ ~CanTick /\ ~Done /\ ~Between
 Open == ~Done /\ ~Stuck /\ ~Between /\ (~Record \/ Len(hist) < MaxHist)
 Polling == ~Calm     \* handler calls are made only while not calm
-Hist(a, x) == hist' = IF Record THEN Append(hist, [a |-> a, x |-> x]) ELSE hist
+\* the recorded schedule: one entry per step; s = for environment steps, what was hit and where the handlers stood (the
+\* behavioural signature of the schedule: the harness executes at least one schedule of every signature, see EmitSched)
+HistS(a, x, s) == hist' = IF Record THEN Append(hist, [a |-> a, x |-> x, s |-> s]) ELSE hist
+Hist(a, x) == HistS(a, x, "")
+At == hs.step \o "/" \o hd.step
+HeadOf(l) == (IF l = "sd" THEN Head(sd).t ELSE Head(ds).t) \o "@" \o At
 Canon == Pacing = "canon"
 \* what reaches the other end of a link (a cut link swallows everything)
 OnSd(out) == IF "sd" \in cut THEN sd ELSE sd \o out
@@ -145,7 +150,7 @@ DstCall(deliver, wrej) ==
      /\ settled' = IF ~deliver /\ dr.out = <<>> /\ dr.h = hd THEN settled \cup {"D"} ELSE settled \ {"D"}
   /\ budget' = IF wrej THEN budget - 1 ELSE budget
   /\ turn' = IF Canon THEN "S" ELSE turn
-  /\ Hist("D", IF wrej THEN 2 ELSE IF deliver THEN 1 ELSE 0)
+  /\ HistS("D", IF wrej THEN 2 ELSE IF deliver THEN 1 ELSE 0, IF wrej THEN HeadOf("sd") ELSE "")
   /\ UNCHANGED <<held, txn, cfg, hs, cbud, cut>>
 \* closed transactions: the entity answers Finished / EOF and discards the rest
 SrcEntity ==
@@ -179,7 +184,7 @@ Fault(kind, l) ==
         IN IF l = "sd" THEN sd' = q2 /\ UNCHANGED ds ELSE ds' = q2 /\ UNCHANGED sd
   /\ budget' = budget - 1
   /\ obs' = [obs EXCEPT !.corrupt = @ \/ kind = "flip", !.lastEnvTxn = txn]
-  /\ Hist(kind, IF l = "sd" THEN 0 ELSE 1)
+  /\ HistS(kind, IF l = "sd" THEN 0 ELSE 1, HeadOf(l))
   /\ UNCHANGED <<held, txn, cfg, hs, hd, cbud, cut, turn, settled>>
 \* one PDU is delayed / overtaken: the PDU that would be delivered next is taken out of the link (one fault) and put back in
 \* front of whatever is in the link at some later moment (before time passes again under canonical pacing)
@@ -190,20 +195,20 @@ Hold(l) ==
      /\ held' = [held EXCEPT ![l] = <<Head(q)>>]
      /\ IF l = "sd" THEN sd' = Tail(q) /\ UNCHANGED ds ELSE ds' = Tail(q) /\ UNCHANGED sd
   /\ budget' = budget - 1
-  /\ Hist("hold", IF l = "sd" THEN 0 ELSE 1)
+  /\ HistS("hold", IF l = "sd" THEN 0 ELSE 1, HeadOf(l))
   /\ UNCHANGED <<txn, cfg, hs, hd, cbud, cut, obs, turn, settled>>
 Release(l) ==
   /\ Open /\ held[l] # <<>>
   /\ held' = [held EXCEPT ![l] = <<>>]
   /\ IF l = "sd" THEN sd' = held[l] \o sd /\ UNCHANGED ds ELSE ds' = held[l] \o ds /\ UNCHANGED sd
-  /\ Hist("release", IF l = "sd" THEN 0 ELSE 1)
+  /\ HistS("release", IF l = "sd" THEN 0 ELSE 1, At)
   /\ UNCHANGED <<txn, cfg, hs, hd, budget, cbud, cut, obs, turn, settled>>
 \* the link falls silent for good: everything in flight and everything sent later is lost
 Cut(l) ==
   /\ Open /\ l \in Cuts /\ l \notin cut /\ LinkTurn(l)
   /\ cut' = cut \cup {l}
   /\ IF l = "sd" THEN sd' = <<>> /\ UNCHANGED ds ELSE ds' = <<>> /\ UNCHANGED sd
-  /\ Hist("cut", IF l = "sd" THEN 0 ELSE 1)
+  /\ HistS("cut", IF l = "sd" THEN 0 ELSE 1, At)
   /\ UNCHANGED <<held, txn, cfg, hs, hd, budget, cbud, obs, turn, settled>>
 
 \* Time passing while PDUs are in flight delays each of them: that is a link fault ("delay") and costs budget.
@@ -225,7 +230,7 @@ CancelS ==
          dr == S!SrcDrain(c.h, -1) IN
      /\ hs' = dr.h /\ sd' = OnSd(dr.out) /\ obs' = [ObsCall("S", c, dr.out, hd.fs) EXCEPT !.lastEnvTxn = txn]
   /\ cbud' = cbud \ {"S"} /\ settled' = settled \ {"S"}
-  /\ Hist("cancelS", 1)
+  /\ HistS("cancelS", 1, At)
   /\ UNCHANGED <<held, txn, cfg, hd, ds, budget, cut, turn>>
 CancelD ==
   /\ Open /\ "D" \in cbud /\ hd.state = "BUSY" /\ (Canon => turn = "D")
@@ -233,7 +238,7 @@ CancelD ==
          dr == D!DstDrain(c.h, -1) IN
      /\ hd' = dr.h /\ ds' = OnDs(dr.out) /\ obs' = [ObsCall("D", c, dr.out, dr.h.fs) EXCEPT !.lastEnvTxn = txn]
   /\ cbud' = cbud \ {"D"} /\ settled' = settled \ {"D"}
-  /\ Hist("cancelD", 1)
+  /\ HistS("cancelD", 1, At)
   /\ UNCHANGED <<held, txn, cfg, hs, sd, budget, cut, turn>>
 
 \* the next put request on the same (now idle again) handlers, after a pause of m.gap ms
@@ -298,5 +303,8 @@ UnboundedWait == \/ (hs.state = "BUSY" /\ hs.step = "WAITING_FOR_FINISHED" /\ hs
 RestOrWait == <>[](Done \/ UnboundedWait \/ ((hs.state = "IDLE" \/ UnboundedWait) /\ (hd.state = "IDLE" \/ UnboundedWait)))
 \* schedule emission: print each complete behaviour once (Record: the history is part of the state)
 Terminal == Done \/ Stuck \/ (Record /\ Len(hist) >= MaxHist)
-EmitSched == (Record /\ Terminal) => PrintT("SCHED" \o ToJson([c |-> cfg.id, st |-> IF Done THEN "done" ELSE IF Stuck THEN "stuck" ELSE "open", h |-> hist]))
+RECURSIVE SchedSig(_)
+SchedSig(i) == IF i > Len(hist) THEN ""
+               ELSE (IF hist[i].s = "" THEN "" ELSE hist[i].a \o ToString(hist[i].x) \o ":" \o hist[i].s \o ";") \o SchedSig(i + 1)
+EmitSched == (Record /\ Terminal) => PrintT("SCHED" \o cfg.mode \o ";" \o SchedSig(1) \o "|" \o ToJson([c |-> cfg.id, st |-> IF Done THEN "done" ELSE IF Stuck THEN "stuck" ELSE "open", h |-> hist]))
 ====
